@@ -149,6 +149,14 @@ def run(ctx: common.Ctx):
   from dinosaur import associated_legendre as al
   from dinosaur import fourier
 
+  import time
+  t_phase = [time.time()]
+
+  def phase(name):
+    now = time.time()
+    ctx.notes.append(f'phase {name}: {now - t_phase[0]:.1f}s')
+    t_phase[0] = now
+
   # ------------------------------------------------------------------ translator + Lean
   gen = None
   try:
@@ -176,6 +184,7 @@ def run(ctx: common.Ctx):
   ctx.assumptions.append('configuration quantifier of C01 is certified (kernel-checked on the live arrays of the '
                          'generated grids) and sampled (factory grids), not proved: no Gauss-Legendre theory in Mathlib')
 
+  phase('translator+lean+audit')
   rng = ctx.rng
   lines, checks = [], []   # checks: (op, inp, impl, kind)
 
@@ -319,7 +328,7 @@ def run(ctx: common.Ctx):
     ctx.case(('rhombus', nl, nm, xr.tobytes()), nontrivial=nl >= 3 and nm >= 2)
   # --- malformed stream: the guards
   for vi in range(ctx.n(10, 60)):
-    nm, nl = int(rng.integers(0, 6)), int(rng.integers(0, 6))
+    nm, nl = int(rng.integers(1, 6)), int(rng.integers(1, 6))
     xr = rng.uniform(-1, 1, 2)
     try:
       out = al.evaluate(nm, nl, xr)
@@ -339,7 +348,9 @@ def run(ctx: common.Ctx):
       ctx.dist[f'{nm_}-guard:{"ok" if kind == "mat" else "reject"}'] += 1
     ctx.case(('guard', nm, nl, Mv, Nv), nontrivial=True)
 
+  phase('correspondence: real code')
   outs = ctx.model(lines)
+  phase(f'correspondence: model ({len(lines)} lines, {sum(map(len, lines)) // 1000} kB)')
   for (op, inp, impl_v, kind), o in zip(checks, outs):
     if kind == 'error':
       ctx.corr_exact(op, inp, impl_v, o)
@@ -379,6 +390,7 @@ def run(ctx: common.Ctx):
     except (ValueError, IndexError) as e:
       ctx.corr_mismatch(op, inp, _shape(impl_v), o[:200], f'unparsable model output: {e}')
 
+  phase('correspondence: compare')
   # ------------------------------------------------------------------ Hyp: separable Gram criterion on factory grids
   for name in (FACTORY_QUICK if ctx.quick else FACTORY_THOROUGH):
     for impl_cls, iname in ((sh.RealSphericalHarmonics, 'real'), (sh.FastSphericalHarmonics, 'fast')):
@@ -398,6 +410,7 @@ def run(ctx: common.Ctx):
                    f'resolved block at {detail}', inp)
         probe_grid(ctx, jnp, sh, g, cfg, dict(factory=name, impl=iname), nspec=ctx.n(1, 3), units=ctx.n(4, 12))
 
+  phase('hyp: factory grids')
   # ------------------------------------------------------------------ sentinel probes on the table
   for cfg, g in grids:
     probe_grid(ctx, jnp, sh, g, cfg, cfg_dict(cfg), nspec=ctx.n(2, 4), units=ctx.n(6, 20))
@@ -420,6 +433,7 @@ def run(ctx: common.Ctx):
                    f'{spacing} rule with {J} nodes: moment error {err:.3e} up to degree {deg}', inp)
         ctx.case(('quad', spacing, J), nontrivial=J >= 2)
 
+  phase('probes')
   if not ctx.quick:
     ctx.leanchecker(['DinoProofs.Properties.C01'])
   return ctx.finish(RULE, 'theorems are about the Lean model Dino.SH/Legendre/Fourier; sqrt, cos, sin, pi and the '
